@@ -52,17 +52,23 @@ def cases(tier, rng, extended=False):
                     yield Case(" ".join([f"factor {n} {alg}"] + toks), k=False, tag=f"{bits}b", profiles=pr)
 
 
+LONG_LAT_BOUND_MS = 5000
+
+
 def long_cases(tier, rng):
-    """inputs whose full run takes minutes: if a poll point disappears the run no longer stops
-    (watchdog) or stops late (latency bound); with the polls in place each costs well under a second"""
-    for alg, bits in (("siqs", 220), ("siqs", 260), ("mpqs", 220), ("qs", 190), ("auto", 250), ("ecm", 200)):
+    """inputs whose full run takes minutes: if a poll point disappears or moves the run no longer stops
+    (watchdog) or stops late. One work unit (one A value / polynomial block / curve) of these sizes
+    takes 0.1-0.9 s in the release profile, so the bound after the first `true` poll is 5 s there."""
+    plan = [("siqs", 220, []), ("siqs", 260, []), ("siqs", 240, ["threads=2"]), ("siqs", 280, ["threads=2"]),
+            ("siqs", 260, ["threads=4"]), ("mpqs", 220, []), ("mpqs", 230, ["threads=2"]), ("qs", 190, []),
+            ("qs", 190, ["threads=2"]), ("auto", 250, []), ("auto", 250, ["threads=2"]), ("ecm", 200, [])]
+    for alg, bits, th in plan:
         n = gen.rand_prime(rng, bits // 2) * gen.rand_prime(rng, bits - bits // 2)
-        for fl in ("abortms=300", "abortpolls=3", "abortms=1500"):
-            for th in ([], ["threads=4"]):
-                if tier == "quick" and th and fl != "abortms=300":
-                    continue
-                yield Case(" ".join([f"factor {n} {alg}", fl] + th), k=False, tag=f"long{bits}b", timeout=60,
-                           profiles=None if fl == "abortms=300" and not th else ["release"])
+        for fl in ("abortms=300", "abortpolls=8", "abortms=1500"):
+            if tier == "quick" and fl == "abortms=1500" and th:
+                continue
+            yield Case(" ".join([f"factor {n} {alg}", fl] + th), k=False, tag=f"long{bits}b", timeout=60,
+                       profiles=["release"])
 
 
 def scan_cases(tier, rng):
@@ -106,8 +112,9 @@ def oracle(case, ans):
             return f"product of {fs} is not n"
         if fs != sorted(fs) or any(f < 2 for f in fs):
             return "list not sorted or contains 0/1"
-    if md.get("late", 0) > 0 and md.get("lat_ms", 0) > LAT_BOUND_MS:
-        return f"returned {md['lat_ms']} ms after the abort predicate first answered true (bound {LAT_BOUND_MS} ms)"
+    bound = LONG_LAT_BOUND_MS if case.tag.startswith("long") and case.args[1] != "ecm" else LAT_BOUND_MS
+    if md.get("late", 0) > 0 and md.get("lat_ms", 0) > bound:
+        return f"returned {md['lat_ms']} ms after the abort predicate first answered true (bound {bound} ms)"
     return None
 
 
